@@ -1,5 +1,6 @@
 import Driver.Codec
 import CardVerif.Model.Betting
+import CardVerif.Model.Omaha
 open Lean CardVerif CardVerif.Codec CardVerif.Betting
 
 namespace CardVerif.Driver
@@ -10,7 +11,7 @@ def asGame (j : Json) : P Game := do
 
 def rankFnOf : Game → RankFn
   | .nlhe => Eval.holdemBrute
-  | .plo => Eval.omahaBrute
+  | .plo => Omaha.handStrengthFast
 
 def asCfg (j : Json) : P Cfg := do
   let samp ← asList asNat (fldD j "samp" (Json.arr #[Json.num 0, Json.num 0]))
